@@ -334,8 +334,8 @@ func (e *Env) Dump() []string {
 	return out
 }
 
-// invLine runs the module's OWN invariants (keeper/invariants.go, the functions registered with
-// the crisis module) on the current state and prints their `broken` flags:
+// invLine runs the module's OWN invariants (keeper/invariants.go, the functions meant for the
+// crisis module) on the current state and prints their `broken` flags:
 //
 //	I <selling 0|1> <paying 0|1> <vesting 0|1> <AllInvariants 0|1>
 //
